@@ -66,10 +66,10 @@ Proof. split; exact I. Qed.
 
 Example wm_instance_same :
   forall n' sp, qpass (-1000) 1000 wcfg wspecs (MMeans None None false [1 # 2; 3]) wm = Ok (n', sp) ->
-  inst Q qbin (fun q => Some (inject_Z (Z.of_nat q) + 10)) n' = inst Q qbin (fun q => Some (inject_Z (Z.of_nat q) + 10)) wm.
+  inst Q qbin qun (fun q => Some (inject_Z (Z.of_nat q) + 10)) n' = inst Q qbin qun (fun q => Some (inject_Z (Z.of_nat q) + 10)) wm.
 Proof.
   intros n' sp E. rewrite qpass_is_lpass in E.
-  apply (l_instance_kept Q _ _ _ qbin (MMeans None None false [1 # 2; 3]) wm n' sp _ (proj1 wm_wf) I E).
+  apply (l_instance_kept Q _ _ _ qbin qun (MMeans None None false [1 # 2; 3]) wm n' sp _ (proj1 wm_wf) I E).
 Qed.
 
 Example wm_bounded :
@@ -94,7 +94,7 @@ Proof. eexists. eexists. vm_compute. split; reflexivity. Qed.
 
 (* fixing to a best-fit vector *)
 Example wm_fixed :
-  fixed Q qbin wm [1 # 2; 3] =
+  fixed Q qbin qun wm [1 # 2; 3] =
   Some (NColl [("g", NModel "T2" ["c"; "pos"]
                       [("c", NConst 3); ("pos", NTuple [("pos_0", (0%nat, NConst 7)); ("pos_1", (1%nat, NConst (1 # 2)))])]);
                ("h", NModel "G2" ["a"; "b"] [("a", NConst 3); ("b", NConst ((1 # 2) * 2))])]).
